@@ -379,12 +379,12 @@ def cases(ctx):
         gl = []
         for name in sorted(by):
             xs = by[name]
-            gl += xs if len(xs) <= 8 else rng.sample(xs, 8)
+            gl += xs if len(xs) <= 6 else rng.sample(xs, 6)
     else:
         gl = rng.sample(gl, min(len(gl), 1400))
     for n, a in gl:
         out.append(build("o_run", {"cls": 0, "name": n, "argv": a}))
-    for n, a in rng.sample(gl, min(len(gl), 400 if tier == "thorough" else 24)):
+    for n, a in rng.sample(gl, min(len(gl), 400 if tier == "thorough" else 16)):
         out.append(build("o_run", {"cls": 1, "name": n, "argv": a}))
     # --- o_chain: transformation chains
     seen, cl = set(), []
@@ -394,7 +394,7 @@ def cases(ctx):
             cl.append(line)
     answers = common.run_driver([line_req(l) for l in cl])
     cl = [l for l, ans in zip(cl, answers) if ans != "UNSUPPORTED" and len(ans) < 200000]
-    cl = rng.sample(cl, min(len(cl), 110 if tier == "quick" else 1500))
+    cl = rng.sample(cl, min(len(cl), 70 if tier == "quick" else 1500))
     for l in cl:
         out.append(build("o_chain", {"line": l}))
     for c in out:
